@@ -22,10 +22,10 @@ def run(model, rep, tier):
 
     def want(alpha, sleaf, kind, zero):
         return (zero and kind != "Source") or is_dead_row(alpha, kind) or is_sleep_row(alpha)
-    n = check_against_spec(model, rep, "R1", KINDS, "IVP", want_rows=want, label=" dead/sleep rows")
-    rep.floor("R1", n, 66)
-    r2(model, rep)
-    r3(model, rep)
+    A = rep.attempt
+    A(lambda: rep.floor("R1", check_against_spec(model, rep, "R1", KINDS, "IVP", want_rows=want, label=" dead/sleep rows"), 66))
+    A(r2, model, rep)
+    A(r3, model, rep)
 
 
 def r2(model, rep):
@@ -69,4 +69,4 @@ def r3(model, rep):
             rep.violation("R3", "components.Source._get_state", "%s:%d" % (rel, fn.lineno),
                           "initial state is %s where %s is required" % (show_value(lf.value), show_value(want)), "state %s/%s" % (show_value(lf.value), show_value(want)))
     rep.instance("R3", "components.Source._get_state", "%s:%d" % (rel, fn.lineno), ok, "%d rows" % nrows)
-    sysrules.c04_propagation(model, rep)
+    rep.attempt(sysrules.c04_propagation, model, rep)
